@@ -31,7 +31,7 @@ def run_history_case(rng, res: CaseResult, want, opts, feat=None, n_variants=3, 
     if name_mode:
         # name mode: results are addressed by config name; one file is never mounted twice (two mounts would share a location by design)
         feat = dict(feat or {}, same_file_twice=False, dup_module_file=False)
-        opts = dict(opts, parameter_mode=False)
+        opts = dict(opts, parameter_mode=False, p_fault=0.0)      # (faults are exercised in parameter-mode histories)
         res.count('name_mode_histories')
     fam = rng.random()
     if fam < 0.08 and not name_mode:
